@@ -92,6 +92,9 @@ var (
 	otherKeys        []*m.Address
 )
 
+// deepID: a genuine router nobody has heard of (the innermost record of three)
+var deepID *m.Address
+
 func genuine(eased bool) *m.Address {
 	if eased {
 		for easedID == nil {
@@ -543,9 +546,29 @@ func presentHop(c *vf.Ctx, a act, rng *rand.Rand) (obs, bool, forged) {
 	}
 	_, apx := apxFrom(toV)
 	ctx := signingContext(toV)
+	deeper := rng.Intn(2) == 0
 	var data []byte
 	if p, _, _ := vf.NoPanic(func() {
 		inner := router.AnnouncePingAttachment{Router: f.pub, Delay: uint16(1 + rng.Intn(100)), ForwardLabel: m.SwitchLabel(1 + rng.Intn(1000)), ReturnLabel: m.SwitchLabel(1 + rng.Intn(1000))}
+		if deeper {
+			// the presented identity is not the innermost record: it wraps the genuine record of one more router the
+			// victim has never heard of (origin -> G -> presented -> R -> victim); what is stored for the presented
+			// address must not depend on what is parsed after it
+			if deepID == nil {
+				deepID = world.NewIdentity(world.EuropePrefix)
+			}
+			g := deepID
+			gr := router.AnnouncePingAttachment{Router: g.PublicAddress, Delay: uint16(1 + rng.Intn(100)), ForwardLabel: m.SwitchLabel(1 + rng.Intn(1000)), ReturnLabel: m.SwitchLabel(1 + rng.Intn(1000))}
+			gb, err := cbor.Marshal(gr)
+			if err != nil {
+				panic(err)
+			}
+			gsig, err := g.SignWithContext(gb, ctx)
+			if err != nil {
+				panic(err)
+			}
+			inner.NextAttachment = append(gb, gsig...)
+		}
 		ib, err := cbor.Marshal(inner)
 		if err != nil {
 			panic(err)
@@ -571,6 +594,9 @@ func presentHop(c *vf.Ctx, a act, rng *rand.Rand) (obs, bool, forged) {
 	res, derr := s.ms.W.DeliverRaw(s.r, s.v, data)
 	o.Outcome, o.Detail = handlerOutcome(res, derr)
 	o.Session, o.Stored, o.BoundKey = keyOf(s.v, f.pub.IP, f, prev)
+	if deeper {
+		o.Detail = "[3 records, presented in the middle] " + o.Detail
+	}
 	return o, true, f
 }
 
